@@ -633,3 +633,69 @@ func firstLine(s string) string {
 	}
 	return strings.TrimSpace(s)
 }
+
+// genGuid: lock discipline of guid.New — the temp-dir names of cache.populate are unique within a process only if
+// every access to the generator's shared state happens between mu.Lock() and mu.Unlock().
+func genGuid(r *repo, o *out) {
+	fd := r.funcDecl("lib/guid", "", "New")
+	shared := map[string]bool{}
+	for _, f := range r.pkgs["lib/guid"] {
+		for _, d := range f.Decls {
+			gd, ok := d.(*ast.GenDecl)
+			if !ok || gd.Tok.String() != "var" {
+				continue
+			}
+			for _, sp := range gd.Specs {
+				vs := sp.(*ast.ValueSpec)
+				mutex := vs.Type != nil && strings.Contains(r.src(vs.Type), "Mutex")
+				for _, nm := range vs.Names {
+					if !mutex && nm.Name != "pushChars" && nm.Name != "_" {
+						shared[nm.Name] = true
+					}
+				}
+			}
+		}
+	}
+	locked := false
+	var outside []string
+	var events []string
+	for _, st := range fd.Body.List {
+		s := strings.TrimSpace(r.src(st))
+		switch {
+		case strings.HasSuffix(s, ".Lock()") && !strings.HasPrefix(s, "defer"):
+			locked = true
+			events = append(events, "lock")
+			continue
+		case strings.HasSuffix(s, ".Unlock()") && !strings.HasPrefix(s, "defer"):
+			locked = false
+			events = append(events, "unlock")
+			continue
+		case strings.HasPrefix(s, "defer") && strings.HasSuffix(s, ".Unlock()"):
+			events = append(events, "defer-unlock")
+			continue
+		}
+		if locked {
+			continue
+		}
+		ast.Inspect(st, func(n ast.Node) bool {
+			if id, ok := n.(*ast.Ident); ok && shared[id.Name] {
+				outside = append(outside, id.Name)
+			}
+			return true
+		})
+	}
+	o.def("guidSharedOutsideLock", "List String", leanStrList(uniqSorted(outside)), "package-level state of lib/guid touched by guid.New outside its mu.Lock()/mu.Unlock() section")
+	o.def("guidLockEvents", "List String", leanStrList(events), "Lock/Unlock statements at the top level of guid.New, in order")
+	p := r.funcDecl("transmat/mixins/cache", "cache", "populate")
+	tmpFromGuid := false
+	ast.Inspect(p, func(n ast.Node) bool {
+		if as, ok := n.(*ast.AssignStmt); ok {
+			s := r.src(as)
+			if strings.Contains(s, ".tmp.unpack.") && strings.Contains(s, "guid.New()") {
+				tmpFromGuid = true
+			}
+		}
+		return true
+	})
+	o.def("populateTmpFromGuid", "Bool", fmt.Sprint(tmpFromGuid), "cache.populate names its temp dir \".tmp.unpack.\" + guid.New()")
+}
